@@ -139,9 +139,46 @@ fn expect<T: DeserializeOwned>(ct: Ct, s: &Script, limit: usize) -> Expect<T> {
     if std::any::type_name::<T>() != std::any::type_name::<Any>() && carries_undeclared_member(enc, &c) {
         return Expect::Reject;
     }
+    // for the scalar / collection classes: the JSON kinds the type admits, judged without the
+    // subject's deserializer
+    if enc == "json" {
+        if let Ok(tree) = serde_json::from_slice::<serde_json::Value>(&c) {
+            if kind_ok::<T>(&tree) == Some(false) {
+                return Expect::Reject;
+            }
+        }
+    }
     match reference_value::<T>(enc, &c) {
         Some(v) => Expect::Accept(v),
         None => Expect::Reject,
+    }
+}
+
+fn kind_ok<T>(v: &serde_json::Value) -> Option<bool> {
+    use serde_json::Value as J;
+    let int32 = |x: &J| x.as_i64().map(|n| x.is_i64() && n >= i32::MIN as i64 && n <= i32::MAX as i64).unwrap_or(false) || x.as_u64().map(|n| n <= i32::MAX as u64).unwrap_or(false);
+    Some(match std::any::type_name::<T>() {
+        "i32" => int32(v),
+        "bool" => v.is_boolean(),
+        "alloc::string::String" => v.is_string(),
+        "f64" => v.is_number() || matches!(v.as_str(), Some("NaN") | Some("Infinity") | Some("-Infinity")),
+        "core::option::Option<i32>" => v.is_null() || int32(v),
+        "alloc::vec::Vec<i32>" => v.as_array().map(|a| a.iter().all(int32)).unwrap_or(false),
+        n if n.contains("BTreeMap<alloc::string::String, i32>") => v.as_object().map(|o| o.values().all(int32)).unwrap_or(false),
+        _ => return None,
+    })
+}
+
+fn near_misses<T>() -> Vec<&'static str> {
+    match std::any::type_name::<T>() {
+        "i32" => vec!["1.5", "\"1\"", "2147483648", "-2147483649", "true", "null", "[1]"],
+        "bool" => vec!["\"true\"", "1", "0", "null", "\"false\""],
+        "alloc::string::String" => vec!["1", "null", "[\"a\"]", "true"],
+        "f64" => vec!["\"1.5\"", "\"42\"", "\"1e3\"", "\"nan\"", "\"inf\"", "\"infinity\"", "\"-inf\"", "true", "null", "[1.5]"],
+        "core::option::Option<i32>" => vec!["\"7\"", "7.5", "[7]", "false"],
+        "alloc::vec::Vec<i32>" => vec!["[\"1\"]", "[1.5]", "[null]", "{}", "1", "[[1]]", "[2147483648]"],
+        n if n.contains("BTreeMap<alloc::string::String, i32>") => vec!["{\"a\":\"1\"}", "{\"a\":1.5}", "[]", "{\"a\":null}"],
+        _ => vec![],
     }
 }
 
@@ -395,6 +432,13 @@ fn part_a<T>(ty: &'static str, valid: &[&str], r: &mut Report, rt: &ConjureRunti
 where
     T: DeserializeOwned + PartialEq + Debug + Send,
 {
+    // well-formed documents of a neighbouring JSON kind
+    for body in near_misses::<T>() {
+        r.states += 1;
+        for s in [script::default_script(body.as_bytes()), uniform(body.as_bytes(), 1)] {
+            run_std::<T, { 50 * 1024 * 1024 }>(r, ty, Ct::Json, &s, 0, rt);
+        }
+    }
     // every catalogue body, default script and uniform chunkings, JSON, default limit
     for body in catalogue(valid) {
         r.states += 1;
